@@ -442,6 +442,8 @@ def apply_op(ix, op):
                 # a new index object on the same folder with overwrite=True (memory: a new object)
                 ix.close()
                 ix.open(op["def"], op["rules"], overwrite=True)
+            elif name == "ClearKeep":
+                t.clear()        # no arguments: the files are emptied, the RAM rules are kept as they are
             elif name == "Clear":
                 d = {}
                 for anchor, rule in op["rules"]:
